@@ -20,6 +20,7 @@ type G struct {
 	fn      value
 	args    []value
 	pos     token.Pos
+	vc      vclock // vector clock (race monitor)
 }
 
 type scheduler struct {
@@ -36,7 +37,7 @@ type scheduler struct {
 var sched *scheduler
 
 func newScheduler() *scheduler {
-	m := &G{id: 0, wake: make(chan struct{}, 1), started: true}
+	m := &G{id: 0, wake: make(chan struct{}, 1), started: true, vc: vclock{1}}
 	return &scheduler{gs: []*G{m}, cur: m, main: m}
 }
 
@@ -44,6 +45,7 @@ func newScheduler() *scheduler {
 func (s *scheduler) goStart(i *interpreter, fn value, args []value, pos token.Pos) {
 	g := &G{id: len(s.gs), wake: make(chan struct{}, 1), fn: fn, args: args, pos: pos}
 	s.gs = append(s.gs, g)
+	raceGo(s.cur, g)
 	s.wg.Add(1)
 	go func() {
 		defer s.wg.Done()
@@ -114,6 +116,20 @@ func (s *scheduler) pick(exclude *G) *G {
 // sync.Map access, mutex). With a schedule budget it is a pre-emption point: the running
 // goroutine may be descheduled here in favour of any other runnable one.
 func (s *scheduler) visible() {
+	if cx.SchedBudget == -2 && len(s.gs) >= 2 {
+		// fair deterministic schedule: hand over to the next runnable goroutine in cyclic order at
+		// every visible operation (used with the race monitor, so that all workers get work)
+		me := s.cur
+		n := len(s.gs)
+		for k := 1; k < n; k++ {
+			g := s.gs[(me.id+k)%n]
+			if g.runnable() {
+				s.switchTo(g)
+				return
+			}
+		}
+		return
+	}
 	if cx.SchedBudget <= 0 || cx.preempts >= cx.SchedBudget || len(s.gs) < 2 {
 		return
 	}
@@ -261,16 +277,24 @@ func (s *scheduler) leaked() int {
 // ---------- channels ----------
 
 type sendWaiter struct {
-	v     value
-	taken bool
+	v      value
+	taken  bool
+	vc     vclock // clock of the sender at the send
+	recvVC vclock // clock of the receiver that took it (unbuffered: the receive happens before the send completes)
 }
 
 type Chan struct {
 	buf    []value
+	bufVC  []vclock // clock of the sender of each buffered value
 	cap    int
 	closed bool
 	sendq  []*sendWaiter
 	recvw  int // receivers currently blocked on this channel
+	// race monitor: the k-th receive happens before the (k+cap)-th send completes; close happens
+	// before a receive that returns because the channel is closed
+	recvVCs []vclock
+	nsent   int
+	closeVC vclock
 }
 
 func makeChan(n int) *Chan { return &Chan{cap: n} }
@@ -283,15 +307,30 @@ func chanSend(ch *Chan, v value) {
 	if ch.closed {
 		panic(targetPanic{v: runtimeErrValue("send on closed channel")})
 	}
+	var mv vclock
+	raceRelease(&mv)
+	n := ch.nsent
+	ch.nsent++
 	if len(ch.buf) < ch.cap {
 		ch.buf = append(ch.buf, v)
+		ch.bufVC = append(ch.bufVC, mv)
+		if race.on && ch.cap > 0 && n >= ch.cap && n-ch.cap < len(ch.recvVCs) {
+			raceAcquire(ch.recvVCs[n-ch.cap])
+		}
 		return
 	}
-	w := &sendWaiter{v: v}
+	w := &sendWaiter{v: v, vc: mv}
 	ch.sendq = append(ch.sendq, w)
 	sched.block("chan send", func() bool { return w.taken || ch.closed })
 	if !w.taken {
 		panic(targetPanic{v: runtimeErrValue("send on closed channel")})
+	}
+	if race.on {
+		if ch.cap == 0 {
+			raceAcquire(w.recvVC)
+		} else if n >= ch.cap && n-ch.cap < len(ch.recvVCs) {
+			raceAcquire(ch.recvVCs[n-ch.cap])
+		}
 	}
 }
 
@@ -299,15 +338,31 @@ func (ch *Chan) recvReady() bool {
 	return len(ch.buf) > 0 || len(ch.sendq) > 0 || ch.closed
 }
 
-// take removes the next value (caller checked recvReady).
+// take removes the next value (caller checked recvReady). It runs on the receiving goroutine.
 func (ch *Chan) take() (value, bool) {
+	received := func(from vclock) {
+		if !race.on {
+			return
+		}
+		raceAcquire(from)
+		var rv vclock
+		raceRelease(&rv)
+		ch.recvVCs = append(ch.recvVCs, rv)
+	}
 	if len(ch.buf) > 0 {
 		v := ch.buf[0]
 		ch.buf = ch.buf[1:]
+		var from vclock
+		if len(ch.bufVC) > 0 {
+			from = ch.bufVC[0]
+			ch.bufVC = ch.bufVC[1:]
+		}
+		received(from)
 		if len(ch.sendq) > 0 {
 			w := ch.sendq[0]
 			ch.sendq = ch.sendq[1:]
 			ch.buf = append(ch.buf, w.v)
+			ch.bufVC = append(ch.bufVC, w.vc)
 			w.taken = true
 		}
 		return v, true
@@ -316,8 +371,13 @@ func (ch *Chan) take() (value, bool) {
 		w := ch.sendq[0]
 		ch.sendq = ch.sendq[1:]
 		w.taken = true
+		received(w.vc)
+		if race.on {
+			w.recvVC = raceCur().vc.copy()
+		}
 		return w.v, true
 	}
+	raceAcquire(ch.closeVC)
 	return nil, false // closed
 }
 
@@ -341,5 +401,6 @@ func chanClose(ch *Chan) {
 	if ch.closed {
 		panic(targetPanic{v: runtimeErrValue("close of closed channel")})
 	}
+	raceRelease(&ch.closeVC)
 	ch.closed = true
 }
